@@ -74,7 +74,7 @@ def rule_edgepred(ctx):
         for m in writes:
             if m.how == "setitem":
                 conds = [(c, p) for c, p in symeval.pc_conds(m.pc)]
-                absent = len(conds) == 1 and conds[0][1] and conds[0][0].op == "cmp" and conds[0][0].a[0] == "notin" and conds[0][0].a[1] is m.key and conds[0][0].a[2].op in ("loopvar", "loop") and conds[0][0].a[2].a[1] == gname
+                absent = len(conds) == 1 and symeval.holds(conds[0][0], conds[0][1], "notin") and conds[0][0].a[1] is m.key and conds[0][0].a[2].op in ("loopvar", "loop") and conds[0][0].a[2].a[1] == gname
                 yield ob("C05.EDGEPRED", f, "%s:create-iff-absent" % q, absent, "G[e] = [] runs iff e is not yet a key of the graph" if absent else "the adjacency list of e is (re)created under %s, not under `e not in G`: edges already recorded for e can be thrown away" % "; ".join(tm.show(c, 3) for c, _ in conds), node=m.node)
         for m in writes:
             if m.how == "method:append":
@@ -320,7 +320,7 @@ def rule_hkshape(ctx):
     greedy = [m for m in s.by_kind("mutate") if m.how == "setitem" and m.root == "matching"]
     need(greedy, "C05.HKSHAPE", "greedy initialisation store not found")
     for i, m in enumerate(greedy):
-        guarded = any(c.op == "cmp" and c.a[0] == "notin" and p and c.a[1] is m.key for c, p in symeval.pc_conds(m.pc))
+        guarded = any(symeval.holds(c, p, "notin") and c.a[1] is m.key for c, p in symeval.pc_conds(m.pc))
         yield ob("C05.HKSHAPE", f, "util._bipartite_match:greedy-guard@%d" % i, guarded, "greedy matching[v] = u only under `v not in matching` (a matched vertex is never overwritten)", node=m.node)
     # (2) the only return of the outer function is `return matching`, under `not unmatched`, inside `while True`
     rets = s.returns
@@ -347,8 +347,8 @@ def rule_hkshape(ctx):
     for m in ext:
         conds = [(c, p) for c, p in symeval.pc_conds(m.pc)]
         inner = [(c, p) for c, p in conds if c.op == "cmp" and c.a[0] in ("in", "notin")]
-        extra = [c for c, p in inner if not (c.a[0] == "in" and p and c.a[1] is m.val)]
-        okext = okext or (any(c.a[0] == "in" and p and c.a[1] is m.val for c, p in inner) and not extra)
+        extra = [c for c, p in inner if not (symeval.holds(c, p, "in") and c.a[1] is m.val)]
+        okext = okext or (any(symeval.holds(c, p, "in") and c.a[1] is m.val for c, p in inner) and not extra)
     yield ob("C05.HKSHAPE", f, "util._bipartite_match:layer-extension", okext, "while layering, every matched vertex v extends the next layer with matching[v] (pred[matching[v]] = v under `v in matching` and no further condition)")
     # (3) augmentation: every unmatched vertex of the last layer is tried
     rec = ctx.S.get("util._bipartite_match.recurse")
